@@ -19,3 +19,7 @@ var driverErrors = []error{
 
 // errSQLiteBusy is what mattn/go-sqlite3 reports when another connection or process holds a lock past the busy timeout.
 var errSQLiteBusy error = sqlite3.Error{Code: sqlite3.ErrBusy}
+
+// codedDriverErr is the error mattn/go-sqlite3 returns for a primary result code.
+func codedDriverErr(code int) error { return sqlite3.Error{Code: sqlite3.ErrNo(code)} }
+
